@@ -124,6 +124,8 @@ static SufSpec mk_suf(int kind, bool real, int fill, int tablines, const std::st
   s.name = name.empty() ? std::string(KN[kind]) + (real ? "real" : "int") + std::to_string(fill) + "t" + std::to_string(tablines) : name;
   if (tablines == 1) s.table = "0 none";
   if (tablines == 3) s.table = "1 low lower bound\n2 upp upper bound\n3 equ equal";
+  if (tablines == 4) s.table = "1 low lower bound\n2 upp upper bound\n";   // table text ending in a newline
+  if (tablines == 5) s.table = "1 low lower bound\n\n3 equ equal";          // empty line inside the table
   return s;
 }
 
@@ -162,7 +164,7 @@ static void add_message_extensions(Alphabets& a) {
 }
 static void add_suffix_alphabet(Alphabets& a) {
   a.sufs.push_back({});
-  for (int kind = 0; kind < 4; ++kind) for (int real = 0; real < 2; ++real) for (int fill = 0; fill < 3; ++fill) for (int tl : {0, 1, 3})
+  for (int kind = 0; kind < 4; ++kind) for (int real = 0; real < 2; ++real) for (int fill = 0; fill < 3; ++fill) for (int tl : {0, 1, 3, 4, 5})
     a.sufs.push_back({mk_suf(kind, real, fill, tl)});
   // sets of suffixes
   a.sufs.push_back({mk_suf(0, false, 2, 0, "a"), mk_suf(0, true, 1, 1, "b")});
@@ -202,6 +204,8 @@ static Alphabets reduced_alphabets() {
   a.sufs.push_back({mk_suf(2, false, 2, 3)});
   a.sufs.push_back({mk_suf(3, true, 2, 0)});
   a.sufs.push_back({mk_suf(0, true, 0, 0)});
+  a.sufs.push_back({mk_suf(1, true, 2, 4), mk_suf(0, false, 1, 0, "after_nl_table")});
+  a.sufs.push_back({mk_suf(2, false, 1, 5), mk_suf(1, true, 1, 0, "after_gap_table")});
   { std::vector<SufSpec> all; for (int kind = 0; kind < 4; ++kind) for (int real = 0; real < 2; ++real) all.push_back(mk_suf(kind, real, 2, real ? 3 : 0)); a.sufs.push_back(all); }
   if (THOROUGH) for (int kind = 0; kind < 4; ++kind) for (int real = 0; real < 2; ++real) for (int fill = 0; fill < 3; ++fill)
     a.sufs.push_back({mk_suf(kind, real, fill, (kind + fill) % 2 ? 3 : 1, "t")});
